@@ -274,7 +274,10 @@ class LockAnalysis:
         """acquisitions (direct or through a callee) of a lock class while a guard of the same class is live"""
         out = []
         p = self.p
+        away = getattr(p, "inlined_away", set())
         for key, body in p.bodies.items():
+            if key in away:
+                continue      # a helper spliced into its only caller is judged there, in the caller's role context
             h = self.held(key)
             if not h.guards:
                 continue
@@ -301,7 +304,10 @@ class LockAnalysis:
         """held class -> acquired class edges (different classes) with a witness, for cycle detection"""
         edges = {}
         p = self.p
+        away = getattr(p, "inlined_away", set())
         for key, body in p.bodies.items():
+            if key in away:
+                continue
             h = self.held(key)
             if not h.guards:
                 continue
